@@ -1792,11 +1792,14 @@ class Expr:
 
             # ABI-encode from args_buf to buf+32
             encode_dst = b.add(buf._ptr, IRLiteral(32))
-            abi_encode_to_buf(self.ctx, encode_dst, args_val.operand, args_tuple_t)
+            encoded_len = abi_encode_to_buf(self.ctx, encode_dst, args_val.operand, args_tuple_t)
+        else:
+            encoded_len = IRLiteral(0)
 
-        # Call starts at buf+28, length = 4 + args_abi_size
+        # Call starts at buf+28, length = 4 + encoded length (NOT the static size bound: the
+        # rest of the buffer holds stale memory)
         args_ofst = b.add(buf._ptr, IRLiteral(28))
-        args_len = IRLiteral(4 + args_abi_size)
+        args_len = b.add(IRLiteral(4), encoded_len)
 
         # === Contract Existence Check ===
         # If function returns nothing and skip_contract_check is False,
